@@ -117,6 +117,22 @@ def run(ctx):
             copy = unparse(t.elts[0]) if isinstance(t, ast.Tuple) else unparse(t)
     if copy is None:
         raise AnalysisError("_process_resend: the decode of the journaled copy was not found")
+    from sa.guards import reaching_defs as _rdefs
+    _rd = _rdefs(g, exc=False)
+
+    def _leaves(e, at, depth=0):
+        """value expressions a local stands for at node `at` (through its reaching definitions), with the node where each is evaluated"""
+        if isinstance(e, ast.Name) and depth < 4:
+            ds = _rd.get(at, {}).get(e.id, set())
+            out = []
+            for d in ds:
+                v = getattr(g.nodes[d].ast, "value", None)
+                if isinstance(g.nodes[d].ast, ast.Assign) and len(g.nodes[d].ast.targets) == 1 and isinstance(g.nodes[d].ast.targets[0], ast.Name) and v is not None:
+                    out += _leaves(v, d, depth + 1)
+                else:
+                    out.append((e, at))
+            return out or [(e, at)]
+        return [(e, at)]
     n3 = 0
     for n in walk_no_nested(lp):
         tag = val = None
@@ -141,6 +157,15 @@ def run(ctx):
                     absent = True
             child = p
             p = getattr(p, "_parent", None)
+        # ... or the written value is the present one: `copy.set(T, copy.get(T, <default>), replace=True)` (through locals)
+        if not absent and how == "replace" and isinstance(n, ast.Call) and len(n.args) >= 2:
+            nid_ = next((x.id for x in g.nodes if x.kind == "stmt" and x.ast is not None and any(n is y for y in ast.walk(x.ast))), None)
+            for leaf, _at in (_leaves(n.args[1], nid_) if nid_ is not None else []):
+                if isinstance(leaf, ast.Call) and unparse(leaf.func) == f"{copy}.get" and len(leaf.args) == 2 and fo.tag(leaf.args[0]) == tag:
+                    absent = True
+                else:
+                    absent = False
+                    break
         ok = how == "replace" or absent
         ctx.instance(R3, f"_process_resend[{copy}[{tag}] marking]", ok,
                      f"`{short(node)}` writes tag {tag} into the journaled copy without replace=True or an absence guard: the copy re-journaled by an earlier resend of "
@@ -193,9 +218,22 @@ def run(ctx):
         return None
     orig = [n for n in g.nodes if n.kind == "stmt" and n.ast is not None and _orig_value(n) is not None]
     del52 = [n for n in g.nodes if n.kind == "stmt" and isinstance(n.ast, ast.Delete) and any(isinstance(t, ast.Subscript) and fo.tag(t.slice) == "52" for t in n.ast.targets)]
-    ok = bool(orig) and all(isinstance(_orig_value(n), ast.Subscript) and unparse(_orig_value(n).value) == copy and fo.tag(_orig_value(n).slice) == "52" for n in orig)
+    # the value, through locals and through `copy.get(122, <default>)`, is copy[52]; the place where copy[52] is READ precedes its deletion
+    reads = []
+    ok = bool(orig)
+    for n in orig:
+        for leaf, at in _leaves(_orig_value(n), n.id):
+            if isinstance(leaf, ast.Call) and unparse(leaf.func) == f"{copy}.get" and len(leaf.args) == 2 and fo.tag(leaf.args[0]) == "122":
+                sub = _leaves(leaf.args[1], at)
+            else:
+                sub = [(leaf, at)]
+            for l2, at2 in sub:
+                if isinstance(l2, ast.Subscript) and unparse(l2.value) == copy and fo.tag(l2.slice) == "52":
+                    reads.append(at2)
+                else:
+                    ok = False
     if ok and del52:
-        ok = not any(g.reaches(d.id, o.id, avoid=[n.id for n in g.nodes if n.kind == "for"], exc=False) for d in del52 for o in orig)
+        ok = not any(g.reaches(d.id, r_, avoid=[n.id for n in g.nodes if n.kind == "for"], exc=False) for d in del52 for r_ in reads)
     ctx.instance(R4, "_process_resend[OrigSendingTime := SendingTime before it is deleted]", ok,
                  "OrigSendingTime is not assigned from the copy's SendingTime (tag 52) before tag 52 is deleted", loc(orig[0].ast) if orig else loc(lp))
 
